@@ -38,6 +38,7 @@ class _User:
         self.cancelled = {}               # k -> info at cancel time
         self.stops = []                   # (step, set of k in flight)
         self.submitted_after_stop = set()
+        self.unsent_at_stop = []          # (step, job names in flight whose request the server had not read)
         self.burst = burst
         self.submit_step = {}
 
@@ -102,6 +103,9 @@ class _User:
         self.stops_left -= 1
         inflight = set(self.unresolved())
         self.stops.append((self.sim.steps, inflight))
+        # jobs whose request has not reached the server yet: stop() abandons their unsent requests
+        seen = set(self.server.msg_job.values())
+        self.unsent_at_stop.append((self.sim.steps, {self.jobs[k][1] for k in inflight if self.jobs[k][1] not in seen}))
         self.ctx.fault("stop")
         self.manager.stop()
 
@@ -397,6 +401,17 @@ def _final_oracle(sim, ctx, loop, server, user, jobs, failing, transport) -> Non
         if not ok:
             raise Violation(f"{P}-CANCEL-WRONG-JOB", f"cancel_quantum_job({name}) although that job was never "
                                                      f"cancelled by its submitter")
+    # stop() cancels the futures of the jobs in flight; a request that had not been sent by then must not be
+    # sent afterwards (the caller was told "cancelled", and the cancel RPC for it is long gone)
+    for stop_step, names in user.unsent_at_stop:
+        if names:
+            ctx.probe("w3:stop-with-unsent-request")
+        for mid, jname in m.msg_job.items():
+            if jname in names and m.read_step.get(mid, -1) > stop_step:
+                raise Violation(f"{P}-STOP-RESURRECTED",
+                                f"{jname.rsplit('/', 1)[-1]}: its submit future was cancelled by stop() before any "
+                                f"request for it had reached the server, yet request {mid} "
+                                f"({m.msg_kind[mid].replace('quantum_', '')}) was sent on a later stream")
     if user.submitted_after_stop:
         ctx.probe("w3:submit-after-stop")
     _ = stop_happened
